@@ -123,6 +123,17 @@ func genGroup(prop string, seed uint64) *Plan {
 		if g.pct(25) {
 			nslots = 2
 		}
+		if g.pct(30) {
+			// sparse topic: the committing member tracks only the
+			// partitions that have data, then loses some of the others
+			// to a second member in a cooperative rebalance and keeps
+			// committing
+			k["mode"] = g.pick(1, 1, 2)
+			k["sparse"] = 1
+			nslots = 2
+			nparts = g.rng(3, 6)
+			k["nparts"] = nparts
+		}
 		nchurn = 0
 	case "C13", "C41":
 		k["mode"] = g.pick(0, 1, 2)
@@ -139,6 +150,9 @@ func genGroup(prop string, seed uint64) *Plan {
 	}
 	for i := 0; i < n; i++ {
 		w.Ops = append(w.Ops, Op{Kind: "produce", S: topics[g.R.Intn(len(topics))], B: g.rng(0, nparts-1), C: g.pick(10, 40, 120)})
+		if k["sparse"] != 0 {
+			w.Ops[len(w.Ops)-1].B = 0
+		}
 		if g.pct(30) {
 			if slowApp {
 				w.Ops = append(w.Ops, Op{Kind: "sleep", A: g.pick(1, 10, 50)})
